@@ -22,6 +22,7 @@ import (
 )
 
 type cfg struct {
+	Upd2    bool // the stream is two updates of one object, then its delete (a lagging handler has both updates queued)
 	Foreign bool // the cache holds an object of another type at readiness (typed monitors must skip it, not give up)
 	Typed   bool
 	K       int    // events published
@@ -39,6 +40,9 @@ func (c cfg) name() string {
 	if c.Foreign {
 		t += "+foreign"
 	}
+	if c.Upd2 {
+		t += "+two-updates"
+	}
 	return fmt.Sprintf("c16/%s/K%d/close=%s@%d/%s%d", t, c.K, c.Closer, c.CloseAt, c.Mode, c.Bound)
 }
 
@@ -48,12 +52,20 @@ type inst struct {
 	log       []string // callback log: enter/exit records
 	doneSeen  bool
 	lateStart []string
+	lateRun   []string
 	monErr    error
 	finished  bool
 	initial   []metav1.Object
 }
 
-func events() []kcache.Event {
+func events(upd2 bool) []kcache.Event {
+	if upd2 {
+		return []kcache.Event{
+			kcache.NewEvent(kcache.EventTypeUpdate, hx.Pod("ns", "a", "2", "l=1")),
+			kcache.NewEvent(kcache.EventTypeUpdate, hx.Pod("ns", "a", "3", "l=1")),
+			kcache.NewEvent(kcache.EventTypeDelete, hx.Pod("ns", "a", "4", "l=1")),
+		}
+	}
 	return []kcache.Event{
 		kcache.NewEvent(kcache.EventTypeUpdate, hx.Pod("ns", "a", "2", "l=1")),
 		kcache.NewEvent(kcache.EventTypeCreate, hx.Pod("ns", "b", "3", "l=1")),
@@ -68,6 +80,11 @@ func (in *inst) cb(kind string, arg string) {
 	vs.Note(btou(in.doneSeen))
 	in.log = append(in.log, "enter "+kind+":"+arg)
 	vs.Step(7) // the handler takes some time: anything may happen meanwhile
+	if in.doneSeen && len(in.lateStart) == 0 {
+		// it started before Done() closed and is still running after
+		in.lateRun = append(in.lateRun, kind+":"+arg)
+	}
+	vs.Note(btou(in.doneSeen))
 	in.log = append(in.log, "exit "+kind+":"+arg)
 }
 
@@ -136,7 +153,7 @@ func (in *inst) run() {
 		}
 	}
 	in.root.Init(in.initial)
-	evs := events()[:c.K]
+	evs := events(c.Upd2)[:c.K]
 	for i := 0; i <= len(evs); i++ {
 		if c.CloseAt == i {
 			go closer() // concurrently with the rest of the stream
@@ -170,6 +187,9 @@ func (in *inst) check(r *vs.Result) []string {
 			msgs = append(msgs, fmt.Sprintf("callbacks overlap | log %v", in.log))
 			break
 		}
+	}
+	if len(in.lateRun) > 0 {
+		msgs = append(msgs, fmt.Sprintf("callback still running after Done | callbacks %v were in progress when the monitor's Done() closed", in.lateRun))
 	}
 	if len(in.lateStart) > 0 {
 		msgs = append(msgs, fmt.Sprintf("callback after Done | callbacks %v started after the monitor's Done() had closed", in.lateStart))
@@ -278,6 +298,7 @@ func Property() runner.Property {
 				}
 				out = append(out, scenario(cfg{Typed: typed, K: 3, CloseAt: -1, Closer: "none", Mode: "S2", Bound: 3}))
 				out = append(out, scenario(cfg{Typed: typed, Foreign: true, K: 2, CloseAt: -1, Closer: "none", Mode: "S2", Bound: 3}))
+				out = append(out, scenario(cfg{Typed: typed, Upd2: true, K: 3, CloseAt: -1, Closer: "none", Mode: "S2", Bound: 2}))
 			}
 			if tier == "thorough" {
 				for _, typed := range []bool{false, true} {
